@@ -361,6 +361,7 @@ func suiteMarshal(r *Rng, n int, thorough bool, o *Out) {
 		}
 		pv := v.String()
 		o.emit(op, obs, pv)
+		emitJSONText(o, out, obs, tree)
 		// the unmarshaling half of the round trip, against the model's UnmarshalResource
 		o.emit(lst("unm", "res", sxSSchema([]stype{{typ: typ, backed: false}}), sxResSke(out)), obsU, "na")
 	}
